@@ -515,6 +515,19 @@ func refreshAgreementRule(P *Program, R *Report) {
 			}
 		}
 		R.decide(rule, kUpdCommit+":records", "the new index and witness are recorded", okIdx && okWit, "", P.Pos(uc.Pos()))
+		// the index is recorded only after the refresh it stands for (recorded first, the forward-only guard that reads it
+		// always says "nothing to do" and the commitment is never refreshed)
+		okOrder, why := true, ""
+		for _, st := range receiverStores(uc) {
+			if desc(st.Addr) != nb+".index" {
+				continue
+			}
+			q := &MustPass{P: P, NoInterproc: true, Instr: func(_ *ssa.Function, i ssa.Instruction) bool { return i == ssa.Instruction(upd) }}
+			if r := q.MustReach(uc, st); !r.Holds {
+				okOrder, why = false, r.Path
+			}
+		}
+		R.decide(rule, kUpdCommit+":index-after-refresh", "the recorded index changes only after ProofCommit.Update ran", okOrder, why, P.Pos(uc.Pos()))
 	}
 }
 
